@@ -538,7 +538,8 @@ impl Value {
             (Tag(l), Tag(r)) => l == r,
             (Byte(l), Byte(r)) => l == r,
             (Int(l), Int(r)) => l == r,
-            (Float(l), Float(r)) => l == r,
+            // Identity, not numeric equality: a NaN is the same value as itself
+            (Float(l), Float(r)) => l.to_bits() == r.to_bits(),
             _ => unreachable!(),
         }
     }
